@@ -15,6 +15,8 @@ pub(crate) mod h_raw;
 pub(crate) mod h_slru;
 #[cfg(kani)]
 pub(crate) mod h_2q;
+#[cfg(kani)]
+pub(crate) mod h_arc;
 
 /// Concrete-playback tests written by the driver when it replays a solver counterexample.
 #[cfg(all(kani, test))]
